@@ -119,6 +119,12 @@ class SharedMemoryFileBufferedCollection(FileBufferedCollection):
                     self._data.clear()
                     self._update(self._load_from_resource())
             else:
+                # The buffered contents are what must be written. They are not
+                # necessarily this object's data: another collection pointing to
+                # the same file may have replaced them since this object last
+                # accessed the buffer.
+                self._data = cached_data["contents"]
+
                 # If the contents have not been changed since the initial read,
                 # we don't need to rewrite it.
                 try:
